@@ -39,6 +39,8 @@ def frame_bytes(code, tpci, own, n, variant=None):
         tg = Telegram(GroupAddress(0), tpci=T.TDataBroadcast(), payload=apci.IndividualAddressRead())
     else:
         dst = IndividualAddress("1.1.1") if own else IndividualAddress("1.1.77")
+        if not own and variant in ("dst0", "dstff"):      # foreign destinations at the ends of the address space: 0.0.0 is no broadcast, 15.15.255 neither
+            dst = IndividualAddress(0 if variant == "dst0" else 0xFFFF)
         tg = Telegram(dst, tpci=[T.TConnect(), T.TDataIndividual(), T.TDisconnect()][n % 3],
                       payload=apci.DeviceDescriptorRead(descriptor=0) if n % 3 == 1 else None)
     cm = {"ind": CEMIMessageCode.L_DATA_IND, "con": CEMIMessageCode.L_DATA_CON, "req": CEMIMessageCode.L_DATA_REQ}[code]
@@ -166,7 +168,7 @@ def plans(ck):
     # receive side: every frame kind, alone
     for code, tpci, own in itertools.product(("ind", "con", "req", "other", "unknown"), ("group", "taggroup", "broadcast", "p2p"), (0, 1)):
         out.append([(0, ("rx", code, tpci, own)), (10, ("rx", code, tpci, own)), (20, ("rx", "ind", "group", 0))])
-    for code, tpci, own, var in itertools.product(("ind", "con", "req"), ("group", "taggroup", "broadcast", "p2p"), (0, 1), ("neg", "low", "hop0")):
+    for code, tpci, own, var in itertools.product(("ind", "con", "req"), ("group", "taggroup", "broadcast", "p2p"), (0, 1), ("neg", "low", "hop0", "dst0", "dstff")):
         out.append([(0, ("rx", code, tpci, own, var)), (10, ("rx", code, tpci, own, var)), (20, ("rx", "ind", "group", 0))])
     # send side: one sender, confirmation before / at / after the interface call returns, twice, never; interface slow or raising
     cons = ([], [0], [1], [500], [2999], [3001], [0, 0], [100, 200], [4000])
@@ -190,7 +192,7 @@ def plans(ck):
                               rnd.choice([[], [0], [5], [400], [2990], [3100], [0, 1], [3500]]))))
             else:
                 s.append((t, ("rx", rnd.choice(["ind", "con", "con", "req", "other"]), rnd.choice(["group", "taggroup", "broadcast", "p2p"]), rnd.randrange(2),
-                              rnd.choice([None, None, "neg", "low", "hop0"]))))
+                              rnd.choice([None, None, "neg", "low", "hop0", "dst0", "dstff"]))))
         out.append(s)
     return out
 
